@@ -1561,6 +1561,7 @@ class Cell(Bucket):
             if app.server and app.server not in servers:
                 app.server = None
                 app.evicted = True
+                app.unschedule = False
                 app.release_identity()
             elif app.server:
                 server = servers[app.server]
